@@ -470,7 +470,28 @@ func vdBinary[T uint32 | uint64](st *vdState, su vdSuite[T], subName string, sub
 						if d := vdObserve(operand, wantB, su.universe); d != "" {
 							return "operand afterwards (must be unchanged): " + d
 						}
-						return vdOperandUntouched(operand)
+						if d := vdOperandUntouched(operand); d != "" {
+							return d
+						}
+						// independence after the operation: toggling every value of the universe in the receiver must
+						// not show in the operand (a result that shares storage with the operand would)
+						for _, probe := range su.universe {
+							present := false
+							for _, w := range want {
+								if w == uint64(probe) {
+									present = true
+								}
+							}
+							if present {
+								recv.Remove(probe)
+							} else {
+								recv.Add(probe)
+							}
+						}
+						if d := vdObserve(operand, wantB, su.universe); d != "" {
+							return "operand after later changes to the receiver (the two must stay independent): " + d
+						}
+						return ""
 					})
 				}
 			}
